@@ -88,13 +88,16 @@ OpsAt(root, p) ==
      \cup (IF "spare" \in OpKinds /\ ~top /\ n.leaf /\ n.t \in SpareTypes /\ n.spare = <<>>
            THEN {[op |-> "spare", path |-> p, len |-> 3]} ELSE {})
 
-IsFrag == Base \in {"frag", "fragdef", "fragmf"}
+IsFrag == Base \in {"frag", "fragdef", "fragmf", "fragemsg"}
 BaseTree == IF IsFrag THEN FragTreeZero(TheFragMovie, "one") ELSE PlainTree(PlainMovie, ZeroOffsets(PlainMovie))
 \* "plaineof": the media data box is the last box and says "to the end of the file" (size field 0)
-Pre == IF Base = "plaineof" THEN <<[op |-> "eof", path |-> <<3>>]>> ELSE <<>>
+\* "fragemsg": an event message box (version 0 / version 1) in front of each of the two moofs
+Pre == CASE Base = "plaineof" -> <<[op |-> "eof", path |-> <<3>>]>>
+         [] Base = "fragemsg" -> <<[op |-> "emsg", path |-> <<>>, at |-> 3, ver |-> 0], [op |-> "emsg", path |-> <<>>, at |-> 6, ver |-> 1]>>
+         [] OTHER -> <<>>
 Applicable(os0) == Let(Pre \o os0, LAMBDA os : Let(ApplyOps(BaseTree, os, 1), LAMBDA root : UNION {OpsAt(root, p) : p \in Paths(root)}))
 
-RenderIt(os) == IF IsFrag THEN RenderFrag(TheFragMovie, "one", os).file ELSE RenderPlain(PlainMovie, Pre \o os)
+RenderIt(os) == IF IsFrag THEN RenderFrag(TheFragMovie, "one", Pre \o os).file ELSE RenderPlain(PlainMovie, Pre \o os)
 ImgOf(bytes) == [start |-> <<>>, len |-> FromInt(Len(bytes)), segs |-> <<[off |-> <<>>, bytes |-> bytes]>>]
 
 \* what the specification's decoder reads back from a rendered layout, without the offsets
@@ -125,7 +128,7 @@ Next == Apply \/ Render
 Spec == Init /\ [][Next]_vars
 
 \* the reference view: the unmodified layout
-RefView == ViewOf(Decoded(CASE Base = "fragmf" -> RenderFrag(FragMovie, "one", <<>>).file
+RefView == ViewOf(Decoded(CASE Base \in {"fragmf", "fragemsg"} -> RenderFrag(FragMovie, "one", <<>>).file
                             [] Base = "plaineof" -> RenderPlain(PlainMovie, <<>>)
                             [] OTHER -> RenderIt(<<>>)))
 LayoutInvariant == out.done => out.view = RefView
